@@ -12,24 +12,66 @@ import (
 	"errors"
 
 	"github.com/nspcc-dev/neo-go/pkg/smartcontract/callflag"
+	"github.com/nspcc-dev/neo-go/pkg/smartcontract/manifest"
+	"github.com/nspcc-dev/neo-go/pkg/smartcontract/nef"
 	"github.com/nspcc-dev/neo-go/pkg/util"
 	"github.com/nspcc-dev/neo-go/pkg/vm"
 	"github.com/nspcc-dev/neo-go/pkg/vm/opcode"
+	"github.com/nspcc-dev/neo-go/pkg/vm/stackitem"
 )
 
-// c12Loader: SYSCALL k loads scripts[k-1]: k odd - LoadScriptWithHash (own hash, exactly one result, own stack);
-// k even - LoadScriptWithFlags (hash zero like the entry script, all results returned, stack shared when empty)
+// c12Loader: the SYSCALL handler pushes a new context through each of the VM's entry points (see coq/VM/Loader.v):
+// id = k | mode<<8 | nargs<<12 | off<<16
+//
+//	mode 0  k odd: LoadScriptWithHash, k even: LoadScriptWithFlags      1  LoadScript      2  LoadDynamicScript
+//	mode 3  LoadNEFMethod without _initialize     4  LoadNEFMethod with _initialize at off     7  LoadNEFMethod with the
+//	callbacks a native contract passes (CallFromNative)     5  the contract call: nargs arguments popped from the caller's
+//	stack, LoadNEFMethod, arguments pushed onto the callee's stack     6  Call(off)
 func c12Loader(scripts []string) func(v *vm.VM, id uint32) error {
 	return func(v *vm.VM, id uint32) error {
-		k := int(id)
+		k, mode, na, off := int(id&0xff), int(id>>8)&0xf, int(id>>12)&0xf, int(id>>16)
+		if mode == 6 {
+			v.Call(off)
+			return nil
+		}
 		if k < 1 || k > len(scripts) {
 			return errors.New("no such script")
 		}
 		b := unhx(scripts[k-1])
-		if k%2 == 1 {
-			v.LoadScriptWithHash(b, util.Uint160{byte(k + 1)}, callflag.NoneFlag)
-		} else {
-			v.LoadScriptWithFlags(b, callflag.NoneFlag)
+		hash := util.Uint160{byte(k + 1)}
+		nefm := func(initOff int, onUnload vm.ContextUnloadCallback, onUnloaded vm.ContextUnloadedCallback) {
+			exe := &nef.File{Header: nef.Header{Magic: nef.Magic, Compiler: "verif"}, Script: b}
+			m := manifest.NewManifest("c12")
+			v.LoadNEFMethod(exe, m, v.GetCurrentScriptHash(), hash, callflag.All, true, 0, initOff, onUnload, onUnloaded, false)
+		}
+		switch mode {
+		case 0:
+			if k%2 == 1 {
+				v.LoadScriptWithHash(b, hash, callflag.NoneFlag)
+			} else {
+				v.LoadScriptWithFlags(b, callflag.NoneFlag)
+			}
+		case 1:
+			v.LoadScript(b)
+		case 2:
+			v.LoadDynamicScript(b, callflag.NoneFlag)
+		case 3:
+			nefm(-1, nil, nil)
+		case 4:
+			nefm(off, nil, nil)
+		case 5:
+			args := make([]stackitem.Item, na)
+			for i := range args {
+				args[i] = v.Estack().Pop().Item()
+			}
+			nefm(-1, nil, nil)
+			for i := len(args) - 1; i >= 0; i-- {
+				v.Estack().PushItem(args[i])
+			}
+		case 7:
+			nefm(-1, func(*vm.VM, *vm.Context, bool) error { return nil }, func(*vm.VM) {})
+		default:
+			return errors.New("no such entry point")
 		}
 		return nil
 	}
@@ -87,8 +129,10 @@ func (a *c12L) resolve() []byte {
 	}
 	return a.b
 }
-func (a *c12L) syscall(k int) {
-	a.b = append(a.b, byte(opcode.SYSCALL), byte(k), byte(k>>8), 0, 0)
+func (a *c12L) syscall(k int) { a.syscallM(k, 0, 0, 0) }
+func (a *c12L) syscallM(k, mode, nargs, off int) {
+	id := uint32(k&0xff) | uint32(mode&0xf)<<8 | uint32(nargs&0xf)<<12 | uint32(off)<<16
+	a.b = append(a.b, byte(opcode.SYSCALL), byte(id), byte(id>>8), byte(id>>16), byte(id>>24))
 }
 
 // a value for a slot or the stack: primitives and compounds (nested, shared)
@@ -315,6 +359,172 @@ func c12MultiBoundary() []c12Input {
 				}
 			}
 		}
+	}
+	return out
+}
+
+// ---- limits through every context-pushing entry point (after the seventh mutation round) ----
+
+// c12NestScript: a script that builds `inner` (>= 0) further contexts by internal CALLs (counter on the stack), then performs
+// the SYSCALL id, and returns what that leaves (exactly one value when the callee returns one).  Contexts of this script
+// at the moment of the SYSCALL: inner + 1.
+func c12NestScript(inner int, k, mode, nargs, off int) []byte {
+	a := newC12L()
+	if inner == 0 {
+		for i := 0; i < nargs; i++ {
+			a.op(opcode.PUSH7)
+		}
+		a.syscallM(k, mode, nargs, off)
+		a.op(opcode.RET)
+		return a.resolve()
+	}
+	a.op(opcode.PUSHINT16, byte((inner-1)&0xff), byte((inner-1)>>8))
+	a.jumpL(opcode.CALLL, "f")
+	a.op(opcode.RET)
+	a.label("f")
+	a.op(opcode.DUP)
+	a.jumpL(opcode.JMPIFL, "rec")
+	a.op(opcode.DROP)
+	for i := 0; i < nargs; i++ {
+		a.op(opcode.PUSH7)
+	}
+	a.syscallM(k, mode, nargs, off)
+	a.op(opcode.RET)
+	a.label("rec")
+	a.op(opcode.DEC)
+	a.jumpL(opcode.CALLL, "f")
+	a.op(opcode.RET)
+	return a.resolve()
+}
+
+// c12DepthPrograms: the invocation stack is filled to d0 contexts by a mix of entry points (scripts loaded through modes
+// 1, 3, 2, 7, 0-odd, 0-even in turn, each adding internal CALL contexts), then ONE more context is pushed through the entry
+// point under test: FAULT iff d0 >= 1024 (mode 4 pushes two: iff d0 >= 1023) whatever built the nesting.
+func c12DepthPrograms() []c12Input {
+	var out []c12Input
+	mids := []int{1, 3, 2, 7, 0, 0} // how scripts 1..6 are loaded (script numbers 1..6; 5 is odd -> WithHash, 6 even -> WithFlags)
+	type fin struct{ mode, nargs int }
+	for _, f := range []fin{{0, 0}, {1, 0}, {2, 0}, {3, 0}, {4, 0}, {5, 2}, {6, 0}, {7, 0}, {8, 0}} { // 8: mode 0 with an even script number
+		for _, d0 := range []int{1021, 1022, 1023, 1024} {
+			// contexts: entry script e+1, scripts 1..5 each c+1, script 6 (the one that makes the final push) c6+1
+			per := (d0 - 7) / 7
+			rest := d0 - 7 - 7*per // goes to the entry script
+			inner := []int{per + rest, per, per, per, per, per, per}
+			var scripts []string
+			// final callee: script 7 (odd) / script 8 (even)
+			finK, mode := 7, f.mode
+			if f.mode == 8 {
+				finK, mode = 8, 0
+			}
+			off := 0
+			if f.mode == 4 {
+				off = 2 // _initialize at offset 2 of the final callee
+			}
+			for i := 1; i <= 6; i++ {
+				k, m, na, o := i+1, mids[i%len(mids)], 0, 0
+				if i == 6 {
+					k, m, na, o = finK, mode, f.nargs, off
+					if mode == 6 {
+						k = 0 // Call(off): a context of script 6 itself, at its leaf
+					}
+				}
+				b := c12NestScript(inner[i], k, m, na, o)
+				if i == 6 && mode == 6 {
+					// leaf for Call(off): PUSH1 RET appended; patch the offset
+					leaf := len(b)
+					b = append(b, byte(opcode.PUSH1), byte(opcode.RET))
+					b2 := c12NestScript(inner[i], 0, 6, 0, leaf)
+					b = append(b2, byte(opcode.PUSH1), byte(opcode.RET))
+				}
+				scripts = append(scripts, hx(b))
+			}
+			switch {
+			case f.mode == 5:
+				scripts = append(scripts, hx([]byte{byte(opcode.DROP), byte(opcode.RET)}), hx([]byte{byte(opcode.DROP), byte(opcode.RET)}))
+			case f.mode == 4:
+				scripts = append(scripts, hx([]byte{byte(opcode.PUSH1), byte(opcode.RET), byte(opcode.RET)}), hx([]byte{byte(opcode.PUSH1), byte(opcode.RET)}))
+			default:
+				scripts = append(scripts, hx([]byte{byte(opcode.PUSH1), byte(opcode.RET)}), hx([]byte{byte(opcode.PUSH1), byte(opcode.RET)}))
+			}
+			entry := c12NestScript(inner[0], 1, mids[0], 0, 0)
+			out = append(out, c12Input{Script: hx(entry), Scripts: scripts, Base: 1, Limit: 100000000})
+		}
+	}
+	return out
+}
+
+// c12OtherLimits: try nesting is per context (16 in the caller and 16 again in a loaded script are fine, a 17th in one context
+// is not); the item limit with items parked in the slots and on the stacks of many contexts and moved as arguments
+func c12OtherLimits() []c12Input {
+	var out []c12Input
+	tryN := func(n int, tail func(a *c12L)) []byte {
+		a := newC12L()
+		for i := 0; i < n; i++ {
+			a.tryL("c", "")
+		}
+		tail(a)
+		a.op(opcode.RET)
+		a.label("c")
+		a.op(opcode.RET)
+		return a.resolve()
+	}
+	for _, n2 := range []int{15, 16, 17} {
+		for _, mode := range []int{1, 3, 4, 6} {
+			callee := tryN(n2, func(a *c12L) { a.op(opcode.PUSH1) })
+			off := 0
+			if mode == 4 || mode == 6 {
+				off = len(callee)
+				callee = append(callee, byte(opcode.RET))
+			}
+			entry := tryN(16, func(a *c12L) {
+				if mode == 6 {
+					a.syscallM(0, 6, 0, 0) // Call(0): the entry script again from its start?  no: its own 17th TRY would fault; use the callee instead
+				} else {
+					a.syscallM(1, mode, 0, off)
+				}
+			})
+			if mode == 6 {
+				continue
+			}
+			out = append(out, c12Input{Script: hx(entry), Scripts: []string{hx(callee)}, Base: 1, Limit: 10000000})
+		}
+	}
+	// items parked in many contexts: `frames` internal frames, each with 5 local Nulls and 5 items on the stack, then a contract
+	// call moving 15 arguments, then NEWARRAY extra in the callee
+	for _, extra := range []int{0, 20, 27, 28, 29, 40} {
+		a := newC12L()
+		a.op(opcode.PUSHINT16, byte(199&0xff), byte(199>>8))
+		a.jumpL(opcode.CALLL, "f")
+		a.op(opcode.RET)
+		a.label("f")
+		a.op(opcode.INITSLOT, 5, 1) // the counter is the argument
+		for i := 0; i < 4; i++ {
+			a.op(opcode.PUSH2)
+		}
+		a.op(opcode.LDARG0)
+		a.jumpL(opcode.JMPIFL, "rec")
+		for i := 0; i < 15; i++ {
+			a.op(opcode.PUSH3)
+		}
+		a.syscallM(1, 5, 15, 0)
+		a.op(opcode.RET)
+		a.label("rec")
+		a.op(opcode.LDARG0).op(opcode.DEC)
+		a.jumpL(opcode.CALLL, "f")
+		a.op(opcode.RET)
+		c := newC12L()
+		c.op(opcode.PUSHINT16, byte(extra&0xff), byte(extra>>8)).op(opcode.NEWARRAY).op(opcode.DEPTH).op(opcode.PACK).op(opcode.RET)
+		out = append(out, c12Input{Script: hx(a.resolve()), Scripts: []string{hx(c.resolve())}, Base: 1, Limit: 100000000})
+	}
+	// an argument of the maximum item size moved into the callee
+	{
+		a := newC12L()
+		a.op(opcode.PUSHINT32, 0, 0, 0x10, 0).op(opcode.NEWBUFFER)
+		a.syscallM(1, 5, 1, 0)
+		a.op(opcode.RET)
+		c := newC12L()
+		c.op(opcode.SIZE).op(opcode.RET)
+		out = append(out, c12Input{Script: hx(a.resolve()), Scripts: []string{hx(c.resolve())}, Base: 1, Limit: 100000000})
 	}
 	return out
 }
